@@ -115,7 +115,7 @@ BOUNDS = {
     'quick': 'family (i): base text = any string (all Unicode, no ESC) of length <=2 x 4 simple patterns (a+, b*, literal ab, literal a); family (ii): 13 concrete '
              'texts (incl. texts as short as the escaped pattern) x 10 patterns (literals with metacharacters, alternation, groups, dot); prior formatting: 1 apply step over (red, bold, blue) on all canonical ranges (family ii: red on the first / full / last range, 2 formats / 3 selections); '
              'both case flags; count: ALL integers; 4 formats / 6 unformat selections; both classes in family (ii)',
-    'thorough': 'family (i) texts up to length 3 and all 10 patterns',
+    'thorough': 'family (i) texts up to length 3 and 8 patterns (a+, b*, ab, a, ., a|b, (a)(b)?, regex a.)',
 }
 OUTSIDE = 'patterns are never symbolic; texts are symbolic only in family (i); longer texts; more than one prior apply step'
 ASSUMPTIONS = ['re.finditer defines the matches (Python\'s re on the shadow replay, CrossHair\'s regex model on the symbolic run)']
@@ -125,14 +125,16 @@ KINDS = 'C: base text (family i); O: count; E: pattern, case flag, format select
 def obligations(tier):
     q = tier == 'quick'
     obs = [selftest_ob()]
-    pats = (0, 1, 2, 3) if q else tuple(range(len(PATTERNS)))
+    # family (i): only patterns on which CrossHair's symbolic regex engine completes (escaped metacharacters under IGNORECASE
+    # -- 'a.' and '+' as literals -- end in PathTimeout / unknown paths: they are covered concretely in family (ii))
+    pats = (0, 1, 2, 3) if q else (0, 1, 2, 3, 5, 6, 7, 9)
     for un in (False, True):
         for pi in pats:
             for n in (0, 1, 2) if q else (0, 1, 2, 3):
                 f = dict(n=n, pi=pi, un=un)
                 if n == 0:
                     f.update(s1=0, r1=0)
-                obs.append(Ob('sym/%s/p%d/n%d' % ('un' if un else 'fmt', pi, n), h_sym, f, need=('matched',) if n >= (2 if pi == 2 else 1) and pi != 1 else (), budget=900, per_path=40,
+                obs.append(Ob('sym/%s/p%d/n%d' % ('un' if un else 'fmt', pi, n), h_sym, f, need=('matched',) if n >= (2 if pi in (2, 9) else 1) and pi != 1 else (), budget=900, per_path=40,
                               bounds='text length %d, pattern %r' % (n, PATTERNS[pi][0]), kinds=KINDS))
         for ti in range(len(PAIRS)):
             for cls in (0, 1):
